@@ -613,13 +613,8 @@ func ruleWASel(c *Ctx) {
 		if !isS {
 			continue
 		}
-		hasNonNull := false
-		for i := 0; i < st.NumFields(); i++ {
-			if st.Field(i).Name() == "nonNull" {
-				hasNonNull = true
-			}
-		}
-		if !hasNonNull {
+		_ = st
+		if nonNullFieldOf(P, ct.T) == "" {
 			continue
 		}
 		fn := ct.M["Write"]
@@ -745,18 +740,7 @@ func ruleBTNonNull(c *Ctx) {
 	c.Rule("BT-NONNULL", "the value branch's index is 1 exactly when null is the first branch and 0 when it is the second; the branch codec is built from that branch's schema; Read and Skip compare the decoded index with it", 5)
 	P := c.P
 	bt := getBT(P)
-	hasNonNull := func(T types.Type) bool {
-		st, isS := T.Underlying().(*types.Struct)
-		if !isS {
-			return false
-		}
-		for i := 0; i < st.NumFields(); i++ {
-			if st.Field(i).Name() == "nonNull" {
-				return true
-			}
-		}
-		return false
-	}
+	hasNonNull := func(T types.Type) bool { return nonNullFieldOf(P, T) != "" }
 	// last store on the path to a field of the literal
 	lastStore := func(p *BTPath, lit ssa.Value, fld string) ssa.Value {
 		var v ssa.Value
@@ -798,6 +782,18 @@ func ruleBTNonNull(c *Ctx) {
 	// judge decides one construction: on a path with state st, the value
 	// branch index is k (a constant) or the literal's own nonNull field
 	// (viaField), and the branch schema is schemaV.
+	// the index may be taken from the working literal's own value-branch field (whatever it is called)
+	var nnAlt []string
+	for _, ct := range bt.Codecs {
+		if n := nonNullFieldOf(P, ct.T); n != "" {
+			nnAlt = append(nnAlt, regexp.QuoteMeta(n))
+		}
+	}
+	sort.Strings(nnAlt)
+	nnPath := regexp.MustCompile(`->(` + strings.Join(dedup(nnAlt), "|") + `)\)`)
+	if len(nnAlt) == 0 {
+		nnPath = regexp.MustCompile(`^\b$`)
+	}
 	judge := func(key, pos string, st *pathState, k int64, schemaV ssa.Value) {
 		pth := accessPath(stripLoadThroughLocal(schemaV))
 		m := unionBase.FindStringSubmatch(pth)
@@ -808,7 +804,7 @@ func ruleBTNonNull(c *Ctx) {
 		base := m[1]
 		u0 := "*(*(&" + base + "->Union)[const:0]&->Type)"
 		u1 := "*(*(&" + base + "->Union)[const:1]&->Type)"
-		idxOK := strings.Contains(pth, fmt.Sprintf("->Union)[const:%d]", k)) || strings.Contains(pth, "->Union)[") && strings.Contains(pth, "->nonNull)")
+		idxOK := strings.Contains(pth, fmt.Sprintf("->Union)[const:%d]", k)) || strings.Contains(pth, "->Union)[") && nnPath.MatchString(pth)
 		if !idxOK {
 			c.Bad(key, pos, fmt.Sprintf("nonNull is %d but the branch codec is built from %s", k, pth))
 			return
@@ -843,6 +839,7 @@ func ruleBTNonNull(c *Ctx) {
 	}
 	sites := 0
 	seen := map[string]bool{}
+	_ = nnPath
 	for _, ub := range bt.Builders {
 		if ub.Fn.Pkg != P.Avro {
 			continue
@@ -855,10 +852,11 @@ func ruleBTNonNull(c *Ctx) {
 			sites++
 			name := typeKey(r.Codec)
 			pos := P.pos(p.Ret.Pos())
-			nnV := lastStore(p, r.Lit, "nonNull")
-			codecV := lastStore(p, r.Lit, "codec")
+			nnName, subName := nonNullFieldOf(P, r.Codec), subCodecFieldOf(P, r.Codec)
+			nnV := lastStore(p, r.Lit, nnName)
+			codecV := lastStore(p, r.Lit, subName)
 			if codecV == nil {
-				codecV = r.Fields["codec"]
+				codecV = r.Fields[subName]
 			}
 			schemaV := schemaArgOf(codecV)
 			if schemaV == nil {
@@ -876,13 +874,17 @@ func ruleBTNonNull(c *Ctx) {
 					break
 				}
 				fa, ok := ld.X.(*ssa.FieldAddr)
-				if !ok || fieldName(fa.X.Type(), fa.Field) != "nonNull" {
+				if !ok {
+					break
+				}
+				srcT := fa.X.Type().Underlying().(*types.Pointer).Elem()
+				if fieldName(fa.X.Type(), fa.Field) != nonNullFieldOf(P, srcT) {
 					break
 				}
 				if _, isLocal := fa.X.(*ssa.Alloc); !isLocal {
 					break
 				}
-				nnV = lastStore(p, fa.X, "nonNull")
+				nnV = lastStore(p, fa.X, nonNullFieldOf(P, srcT))
 			}
 			var k int64
 			isConst := true
@@ -979,13 +981,9 @@ func ruleBTNonNull(c *Ctx) {
 		if !isS {
 			continue
 		}
-		has := false
-		for i := 0; i < st.NumFields(); i++ {
-			if st.Field(i).Name() == "nonNull" {
-				has = true
-			}
-		}
-		if !has {
+		_ = st
+		nnName := nonNullFieldOf(P, ct.T)
+		if nnName == "" {
 			continue
 		}
 		for _, m := range []string{"Read", "Skip"} {
@@ -1002,10 +1000,10 @@ func ruleBTNonNull(c *Ctx) {
 						continue
 					}
 					x, y := f.X, f.Y
-					if fx, okx := recvFieldOf(fn, y); okx && fx == "nonNull" && derivesFromReadByte(x) {
+					if fx, okx := recvFieldOf(fn, y); okx && fx == nnName && derivesFromReadByte(x) {
 						ok = true
 					}
-					if fx, okx := recvFieldOf(fn, x); okx && fx == "nonNull" && derivesFromReadByte(y) {
+					if fx, okx := recvFieldOf(fn, x); okx && fx == nnName && derivesFromReadByte(y) {
 						ok = true
 					}
 				}
